@@ -1,8 +1,1912 @@
-//! stub — to be implemented
-use crate::common::{Ctx, Report};
+//! C14 — sozu respects every HTTP/2 peer limit and keeps transfers moving.
+//!
+//! One *cell* = a live worker (HTTPS listener, ALPN h2) + a scripted backend (HTTP/1.1, or
+//! prior-knowledge h2c made of `peers::h2`) + a few scripted H2 client connections over TLS. Every
+//! frame sozu emits towards the client (responses) and towards the h2c backend (requests) goes
+//! through the codec's online ledger; the ledger is the oracle. Bounded progress: the scripted
+//! receivers follow a WINDOW_UPDATE schedule and finally grant exactly what is missing; from then
+//! on the transfer must complete.
 
-pub fn run(_ctx: &Ctx) -> Report {
-    let mut rep = Report::new("exploration", "not implemented");
-    rep.broken("check not implemented yet");
+use std::{
+    collections::BTreeMap,
+    io::{Read, Write},
+    net::SocketAddr,
+    sync::{
+        Arc, Mutex,
+        atomic::{AtomicBool, Ordering},
+    },
+    time::{Duration, Instant},
+};
+
+use serde_json::{Value, json};
+use sozu_command_lib::proto::command::Cluster;
+
+use crate::{
+    common::{
+        Ctx, Report, Rng, par_cases,
+        rng::{keystream, keystream_mismatch},
+    },
+    lab::{self, Worker, WorkerOpts},
+    peers::{
+        self, BackendServer, IoProgram, h1,
+        h2::{self, Event, Frame, H2Conn, H2Error, Replenish, Role, Transport},
+        tls,
+    },
+};
+
+const HOST: &str = "c14.test";
+const DOWN_ID: u64 = 1 << 40;
+const SIZES: [usize; 11] = [0, 1, 9, 16_383, 16_384, 16_385, 16_393, 65_535, 65_536, 65_537, 1 << 20];
+const IWS_SET: [u32; 6] = [0, 1, 9, 16_383, 65_535, 0x7fff_ffff];
+const FRAME_SET: [u32; 3] = [16_384, 16_385, 0x00ff_ffff];
+const TABLE_SET: [u32; 4] = [0, 1, 4_096, 65_536];
+
+/// ledger kinds that refute C14 (the others are reported as inconclusive: not this property's)
+const C14_KINDS: [&str; 8] = [
+    h2::LV_STREAM_WINDOW,
+    h2::LV_CONN_WINDOW,
+    h2::LV_FRAME_SIZE,
+    h2::LV_CONCURRENT,
+    h2::LV_STREAM_ID,
+    h2::LV_CLOSED_STREAM,
+    h2::LV_HPACK_SIZE,
+    h2::LV_HPACK_NOT_REDUCED,
+];
+
+// ================================================================================================
+// Plans
+// ================================================================================================
+
+#[derive(Clone, Debug, PartialEq)]
+enum Grant {
+    /// give every octet back at once; full top-up on a stall
+    Burst,
+    /// n octets to whatever is blocked, `steps` times, then everything
+    Drip { n: u32, steps: u32 },
+    /// stream windows first (connection starved), connection afterwards
+    StreamThenConn,
+    ConnThenStream,
+    /// c octets to the streams, then c octets to the connection, alternating
+    Alternate { c: u32 },
+    /// exactly what is missing, on streams and connection
+    ExactFit,
+}
+
+impl Grant {
+    fn name(&self) -> &'static str {
+        match self {
+            Grant::Burst => "burst",
+            Grant::Drip { n: 1, .. } => "drip1",
+            Grant::Drip { .. } => "chunk",
+            Grant::StreamThenConn => "stream_then_conn",
+            Grant::ConnThenStream => "conn_then_stream",
+            Grant::Alternate { .. } => "alternate",
+            Grant::ExactFit => "exact_fit",
+        }
+    }
+}
+
+#[derive(Clone, Debug)]
+struct Change {
+    /// fires once this many flow-controlled octets were received on the connection
+    after_flow: u64,
+    values: Vec<(u16, u32)>,
+}
+
+#[derive(Clone, Debug)]
+struct PeerPlan {
+    settings: Vec<(u16, u32)>,
+    grant: Grant,
+    changes: Vec<Change>,
+    io: IoProgram,
+    quiet_ms: u64,
+    literal_hpack: bool,
+}
+
+#[derive(Clone, Debug)]
+struct Xfer {
+    id: u64,
+    up: usize,
+    down: usize,
+    pad: Option<u8>,
+    content_length: bool,
+}
+
+#[derive(Clone, Debug)]
+struct ConnPlan {
+    /// plain HTTP/1.1 client (keep-alive, sequential) instead of H2/TLS: isolates the backend leg
+    front_h1: bool,
+    front: PeerPlan,
+    xfers: Vec<Xfer>,
+    max_inflight: usize,
+    up_quantum: usize,
+}
+
+#[derive(Clone, Debug)]
+struct CellPlan {
+    case: u64,
+    back_h2c: bool,
+    back: Vec<PeerPlan>,
+    h1_io: IoProgram,
+    conns: Vec<ConnPlan>,
+    front_sndbuf: Option<i64>,
+    back_sndbuf: Option<i64>,
+    own_conn_window: Option<u32>,
+    buffer_size: u64,
+}
+
+fn gen_io(rng: &mut Rng) -> IoProgram {
+    let mut p = IoProgram::fast();
+    match rng.below(6) {
+        0 => {
+            p.read_chunk = *rng.pick(&[1usize, 9, 100, 4096]);
+            p.rcvbuf = 4096;
+        }
+        1 => {
+            p.write_seg = *rng.pick(&[1usize, 9, 10, 100, 1000]);
+        }
+        2 => {
+            p.read_chunk = 1000;
+            p.read_pause_us = 200;
+            p.rcvbuf = 2048;
+        }
+        _ => {}
+    }
+    p
+}
+
+fn gen_peer(rng: &mut Rng, back: bool, expected_flow: u64) -> PeerPlan {
+    let mut settings = Vec::new();
+    let iws = if rng.chance(4, 5) { *rng.pick(&IWS_SET) } else { rng.range(0, 200_000) as u32 };
+    if iws != 65_535 || rng.bool() {
+        settings.push((h2::SET_INITIAL_WINDOW_SIZE, iws));
+    }
+    if rng.chance(2, 3) {
+        let f = if rng.chance(5, 6) { *rng.pick(&FRAME_SET) } else { rng.range(16_384, 0x00ff_ffff) as u32 };
+        settings.push((h2::SET_MAX_FRAME_SIZE, f));
+    }
+    if rng.chance(2, 3) {
+        let choices: &[u32] = if back { &[0, 1, 2, 100] } else { &[1, 2, 100] };
+        settings.push((h2::SET_MAX_CONCURRENT_STREAMS, *rng.pick(choices)));
+    }
+    if rng.chance(2, 3) {
+        settings.push((h2::SET_HEADER_TABLE_SIZE, *rng.pick(&TABLE_SET)));
+    }
+    if !back {
+        settings.push((h2::SET_ENABLE_PUSH, 0));
+    }
+    rng.shuffle(&mut settings);
+    let grant = match rng.below(12) {
+        0 => Grant::Drip { n: 1, steps: rng.range(5, 40) as u32 },
+        1 | 2 => Grant::Drip { n: *rng.pick(&[9u32, 100, 16_383, 16_384, 16_385, 65_535]), steps: rng.range(3, 60) as u32 },
+        3 | 4 => Grant::StreamThenConn,
+        5 | 6 => Grant::ConnThenStream,
+        7 | 8 => Grant::Alternate { c: *rng.pick(&[1u32, 9, 1000, 16_384, 65_535, 1 << 20]) },
+        9 => Grant::ExactFit,
+        _ => Grant::Burst,
+    };
+    let mut changes = Vec::new();
+    let n_changes = *rng.pick(&[0usize, 0, 1, 1, 2, 3]);
+    for _ in 0..n_changes {
+        let mut values = Vec::new();
+        // never raise to 2^31-1 mid-connection: a stream that already got WINDOW_UPDATEs would
+        // legitimately overflow (RFC 9113 6.9.2), which is not what is being tested
+        if rng.chance(4, 5) {
+            values.push((h2::SET_INITIAL_WINDOW_SIZE, *rng.pick(&[0u32, 0, 1, 9, 16_383, 65_535, 100_000])));
+        }
+        if rng.chance(1, 2) {
+            values.push((h2::SET_MAX_FRAME_SIZE, *rng.pick(&FRAME_SET)));
+        }
+        if rng.chance(1, 3) {
+            values.push((h2::SET_HEADER_TABLE_SIZE, *rng.pick(&TABLE_SET)));
+        }
+        if rng.chance(1, 3) {
+            let choices: &[u32] = if back { &[0, 1, 2, 100] } else { &[1, 2, 100] };
+            values.push((h2::SET_MAX_CONCURRENT_STREAMS, *rng.pick(choices)));
+        }
+        if values.is_empty() {
+            values.push((h2::SET_INITIAL_WINDOW_SIZE, 0));
+        }
+        let after_flow = if expected_flow == 0 { 0 } else { rng.below(expected_flow.max(1)) };
+        changes.push(Change { after_flow, values });
+    }
+    changes.sort_by_key(|c| c.after_flow);
+    PeerPlan {
+        settings,
+        grant,
+        changes,
+        io: gen_io(rng),
+        quiet_ms: *rng.pick(&[2u64, 3, 5, 10]),
+        literal_hpack: rng.chance(1, 4),
+    }
+}
+
+fn gen_size(rng: &mut Rng, budget: &mut usize) -> usize {
+    let mut s = if rng.chance(3, 5) {
+        let b = *rng.pick(&SIZES);
+        if b == 1 << 20 && !rng.chance(1, 3) { 65_537 } else { b }
+    } else if rng.chance(1, 2) {
+        rng.range(0, 400) as usize
+    } else {
+        rng.boundary_size(&SIZES, 300_000)
+    };
+    if s > *budget {
+        s = *budget;
+    }
+    *budget -= s;
+    s
+}
+
+/// `force_back` / `force_front`: restrict the pairing (options `backend=h1|h2c`, `front=h1|h2`)
+fn gen_cell(seed: u64, case: u64, thorough: bool, force_back: Option<bool>, force_front_h1: Option<bool>) -> CellPlan {
+    let mut rng = Rng::for_case(seed, 14, case);
+    let drawn = rng.chance(3, 5);
+    let back_h2c = force_back.unwrap_or(drawn);
+    let n_conns = rng.urange(2, 4);
+    let mut next_id = 1u64;
+    let mut conns = Vec::new();
+    let mut total_up = 0u64;
+    for _ in 0..n_conns {
+        let n = match rng.below(10) {
+            0..=3 => 1,
+            4..=6 => rng.urange(2, 4),
+            7 | 8 => rng.urange(5, 12),
+            _ => rng.urange(13, 32),
+        };
+        // per-connection byte budget keeps the quick tier quick
+        let mut budget = if thorough { 6 << 20 } else { 3 << 19 };
+        let mut xfers = Vec::new();
+        let shape = rng.below(4);
+        for _ in 0..n {
+            let (up, down) = match shape {
+                0 => (0, gen_size(&mut rng, &mut budget)),
+                1 => (gen_size(&mut rng, &mut budget), *rng.pick(&[0usize, 1, 9, 100])),
+                _ => (gen_size(&mut rng, &mut budget), gen_size(&mut rng, &mut budget)),
+            };
+            total_up += up as u64;
+            xfers.push(Xfer {
+                id: next_id,
+                up,
+                down,
+                pad: if rng.chance(1, 6) { Some(rng.range(0, 32) as u8) } else { None },
+                content_length: rng.bool(),
+            });
+            next_id += 1;
+        }
+        let down_total: u64 = xfers.iter().map(|x| x.down as u64).sum();
+        conns.push(ConnPlan {
+            front_h1: {
+                let drawn = rng.chance(1, 3);
+                back_h2c && force_front_h1.unwrap_or(drawn)
+            },
+            front: gen_peer(&mut rng, false, down_total),
+            max_inflight: if rng.chance(2, 3) { n } else { rng.urange(1, n) },
+            up_quantum: *rng.pick(&[1usize << 20, 16_384, 16_385, 1000, 9]),
+            xfers,
+        });
+    }
+    let back = (0..2).map(|_| gen_peer(&mut rng, true, total_up / 2)).collect();
+    CellPlan {
+        case,
+        back_h2c,
+        back,
+        h1_io: gen_io(&mut rng),
+        conns,
+        front_sndbuf: if rng.chance(1, 3) { Some(*rng.pick(&[4096i64, 16_384, 65_536])) } else { None },
+        back_sndbuf: if rng.chance(1, 3) { Some(*rng.pick(&[4096i64, 16_384, 65_536])) } else { None },
+        own_conn_window: if rng.bool() { Some(65_535) } else { None },
+        buffer_size: *rng.pick(&[16_393u64, 16_393, 32_768]),
+    }
+}
+
+fn settings_json(s: &[(u16, u32)]) -> Value {
+    Value::Array(s.iter().map(|(k, v)| json!([k, v])).collect())
+}
+
+fn peer_json(p: &PeerPlan) -> Value {
+    json!({
+        "settings": settings_json(&p.settings),
+        "grant": format!("{:?}", p.grant),
+        "changes": p.changes.iter().map(|c| json!({"after_flow": c.after_flow, "values": settings_json(&c.values)})).collect::<Vec<_>>(),
+        "io": p.io.describe(),
+        "quiet_ms": p.quiet_ms,
+        "literal_hpack": p.literal_hpack,
+    })
+}
+
+fn plan_json(p: &CellPlan) -> Value {
+    json!({
+        "backend": if p.back_h2c { "h2c" } else { "h1" },
+        "back_peers": p.back.iter().map(peer_json).collect::<Vec<_>>(),
+        "h1_io": p.h1_io.describe(),
+        "front_sndbuf": p.front_sndbuf, "back_sndbuf": p.back_sndbuf,
+        "own_conn_window": p.own_conn_window, "buffer_size": p.buffer_size,
+        "conns": p.conns.iter().map(|c| json!({
+            "front": if c.front_h1 { "h1" } else { "h2" },
+            "front_peer": peer_json(&c.front),
+            "max_inflight": c.max_inflight, "up_quantum": c.up_quantum,
+            "xfers": c.xfers.iter().map(|x| json!([x.id, x.up, x.down, x.pad, x.content_length])).collect::<Vec<_>>(),
+        })).collect::<Vec<_>>(),
+    })
+}
+
+// ================================================================================================
+// Receiver side: window granting schedule + SETTINGS changes
+// ================================================================================================
+
+#[derive(Default, Debug, Clone)]
+struct SideStats {
+    conns: u64,
+    streams: u64,
+    data_frames: u64,
+    flow_bytes: u64,
+    /// times the granter found sozu unable to send (no credit) while data was still due
+    window_stalls: u64,
+    ledger_stalls: u64,
+    settings_changes: u64,
+    shrink_negative: u64,
+    grants: u64,
+    max_frame_seen: u64,
+    max_frame_allowed: u64,
+    max_open: u64,
+    goaways: u64,
+    adv: BTreeMap<String, u64>,
+}
+
+impl SideStats {
+    fn publish(&self, side: &str, rep: &mut Report) {
+        rep.obs(&format!("{side}.connections"), self.conns);
+        rep.obs(&format!("{side}.streams"), self.streams);
+        rep.obs(&format!("{side}.data_frames_checked"), self.data_frames);
+        rep.obs(&format!("{side}.bytes_ledgered"), self.flow_bytes);
+        rep.obs(&format!("{side}.window_stalls"), self.window_stalls);
+        rep.obs(&format!("{side}.ledger_window_exhausted"), self.ledger_stalls);
+        rep.obs(&format!("{side}.settings_changes_mid_connection"), self.settings_changes);
+        rep.obs(&format!("{side}.shrink_below_inflight"), self.shrink_negative);
+        rep.obs(&format!("{side}.window_updates_sent"), self.grants);
+        rep.obs(&format!("{side}.goaway_received"), self.goaways);
+        rep.obs_max(&format!("{side}.max_frame_len_seen"), self.max_frame_seen);
+        rep.obs_max(&format!("{side}.max_frame_size_advertised"), self.max_frame_allowed);
+        rep.obs_max(&format!("{side}.max_concurrent_open_seen"), self.max_open);
+        for (k, v) in &self.adv {
+            rep.obs(&format!("{side}.{k}"), *v);
+        }
+    }
+    fn note_settings(&mut self, values: &[(u16, u32)], change: bool) {
+        for (id, v) in values {
+            let name = match *id {
+                h2::SET_INITIAL_WINDOW_SIZE => "iws",
+                h2::SET_MAX_FRAME_SIZE => "max_frame",
+                h2::SET_MAX_CONCURRENT_STREAMS => "max_concurrent",
+                h2::SET_HEADER_TABLE_SIZE => "header_table",
+                _ => continue,
+            };
+            let known = IWS_SET.contains(v) || FRAME_SET.contains(v) || TABLE_SET.contains(v) || [2u32, 100].contains(v);
+            let val = if known { v.to_string() } else { "other".to_owned() };
+            *self.adv.entry(format!("adv.{}{name}.{val}", if change { "change." } else { "" })).or_insert(0) += 1;
+            if *id == h2::SET_MAX_FRAME_SIZE {
+                self.max_frame_allowed = self.max_frame_allowed.max(*v as u64);
+            }
+        }
+    }
+    fn absorb<S: Transport>(&mut self, c: &H2Conn<S>) {
+        self.conns += 1;
+        self.data_frames += c.data_frames_in;
+        self.flow_bytes += c.conn_recv_flow;
+        self.ledger_stalls += c.conn_stalls + c.streams.values().map(|s| s.stalls).sum::<u64>();
+        self.max_frame_seen = self.max_frame_seen.max(c.max_frame_len_seen as u64);
+        if c.max_frame_len_seen > 16_384 {
+            *self.adv.entry("connections_with_frames_longer_than_16384".to_owned()).or_insert(0) += 1;
+        }
+        self.max_open = self.max_open.max(c.max_remote_open as u64);
+        if c.goaway_in.is_some() {
+            self.goaways += 1;
+        }
+    }
+}
+
+struct Receiver {
+    plan: PeerPlan,
+    quiet: Duration,
+    last_rx: Instant,
+    steps: u32,
+    next_change: usize,
+    stats: SideStats,
+    /// set once the schedule reached "grant everything that is missing"
+    flooded: bool,
+    /// index of the first inbound frame whose payload was not the expected keystream
+    corrupt_at: Option<usize>,
+}
+
+impl Receiver {
+    fn new(plan: &PeerPlan) -> Receiver {
+        let mut stats = SideStats::default();
+        stats.note_settings(&plan.settings, false);
+        if !plan.settings.iter().any(|(k, _)| *k == h2::SET_MAX_FRAME_SIZE) {
+            stats.max_frame_allowed = 16_384;
+        }
+        *stats.adv.entry(format!("policy.{}", plan.grant.name())).or_insert(0) += 1;
+        Receiver {
+            quiet: Duration::from_millis(plan.quiet_ms),
+            plan: plan.clone(),
+            last_rx: Instant::now(),
+            steps: 0,
+            next_change: 0,
+            stats,
+            flooded: false,
+            corrupt_at: None,
+        }
+    }
+
+    fn setup<S: Transport>(&self, c: &mut H2Conn<S>) {
+        c.auto_ack = true;
+        c.auto_pong = true;
+        c.obey_windows = true;
+        c.replenish = Replenish::Manual;
+        c.io_prog = self.plan.io.clone();
+        c.write_timeout = Duration::from_secs(20);
+        if self.plan.literal_hpack {
+            c.enc.mode = h2::HpackMode::LiteralOnly;
+        }
+    }
+
+    /// DATA arrived: Burst gives it back at once
+    fn after_data<S: Transport>(&mut self, c: &mut H2Conn<S>, sid: u32, flow_len: usize, end_stream: bool) -> Result<(), H2Error> {
+        self.last_rx = Instant::now();
+        if self.plan.grant == Grant::Burst && flow_len > 0 {
+            let mut frames = vec![Frame::window_update(0, flow_len as u32)];
+            if !end_stream {
+                frames.push(Frame::window_update(sid, flow_len as u32));
+            }
+            self.stats.grants += frames.len() as u64;
+            c.send_frames(&frames)?;
+        }
+        Ok(())
+    }
+
+    fn on_settings_ack<S: Transport>(&mut self, c: &H2Conn<S>) {
+        if c.streams.values().any(|s| s.recv_window < 0 && !s.remote_end && s.remote_rst.is_none()) {
+            self.stats.shrink_negative += 1;
+        }
+    }
+
+    /// mid-connection SETTINGS changes due by now
+    fn changes<S: Transport>(&mut self, c: &mut H2Conn<S>) -> Result<(), H2Error> {
+        while let Some(ch) = self.plan.changes.get(self.next_change) {
+            if c.conn_recv_flow < ch.after_flow {
+                break;
+            }
+            let mut values = ch.values.clone();
+            // a raise of INITIAL_WINDOW_SIZE must not push an existing stream window over 2^31-1
+            let cur = c.local_settings.initial_window_size as i64;
+            for (id, v) in values.iter_mut() {
+                if *id == h2::SET_INITIAL_WINDOW_SIZE {
+                    let max_w = c.streams.values().map(|s| s.recv_window).max().unwrap_or(0).max(0);
+                    let pending_max = c.local_pending.iter().flatten().filter(|(i, _)| *i == h2::SET_INITIAL_WINDOW_SIZE).map(|(_, v)| *v as i64).max().unwrap_or(cur);
+                    let headroom = h2::MAX_WINDOW - max_w - (pending_max - cur).max(0);
+                    if (*v as i64 - cur.min(pending_max)) > headroom {
+                        *v = cur.min(pending_max).max(0) as u32;
+                    }
+                }
+            }
+            self.stats.note_settings(&values, true);
+            self.stats.settings_changes += 1;
+            c.send_settings(&values)?;
+            self.next_change += 1;
+        }
+        Ok(())
+    }
+
+    /// `needs` = (stream, payload octets still due on it); runs the WINDOW_UPDATE schedule
+    fn tick<S: Transport>(&mut self, c: &mut H2Conn<S>, needs: &[(u32, u64)]) -> Result<(), H2Error> {
+        self.changes(c)?;
+        let mut active: Vec<(u32, i64, i64)> = Vec::new();
+        for (sid, rem) in needs {
+            if *rem == 0 {
+                continue;
+            }
+            if let Some(s) = c.streams.get(sid) {
+                if !s.remote_end && s.remote_rst.is_none() && s.local_rst.is_none() {
+                    active.push((*sid, *rem as i64, s.recv_window));
+                }
+            }
+        }
+        if active.is_empty() {
+            return Ok(());
+        }
+        let conn_w = c.conn_recv_window;
+        let total: i64 = active.iter().map(|a| a.1).sum();
+        let conn_blocked = conn_w <= 0;
+        let any_stream_blocked = active.iter().any(|a| a.2 <= 0);
+        let can_progress = !conn_blocked && active.iter().any(|a| a.2 > 0);
+        if !(conn_blocked || any_stream_blocked) || self.last_rx.elapsed() < self.quiet {
+            return Ok(());
+        }
+        if !can_progress {
+            self.stats.window_stalls += 1;
+        }
+        let mut frames: Vec<Frame> = Vec::new();
+        let cap = |w: i64, inc: i64| -> u32 { inc.min(h2::MAX_WINDOW - w).clamp(0, h2::MAX_WINDOW) as u32 };
+        let all_streams = |frames: &mut Vec<Frame>| {
+            for (sid, rem, w) in &active {
+                let inc = cap(*w, rem - w);
+                if inc > 0 {
+                    frames.push(Frame::window_update(*sid, inc));
+                }
+            }
+        };
+        let conn_all = |frames: &mut Vec<Frame>| {
+            let inc = cap(conn_w, total - conn_w);
+            if inc > 0 {
+                frames.push(Frame::window_update(0, inc));
+            }
+        };
+        let some = |frames: &mut Vec<Frame>, n: u32, streams: bool, conn: bool| {
+            if streams {
+                for (sid, rem, w) in &active {
+                    if *w <= 0 {
+                        let inc = cap(*w, (n as i64).min(rem - w));
+                        if inc > 0 {
+                            frames.push(Frame::window_update(*sid, inc));
+                        }
+                    }
+                }
+            }
+            if conn && conn_blocked {
+                let inc = cap(conn_w, (n as i64).min(total - conn_w));
+                if inc > 0 {
+                    frames.push(Frame::window_update(0, inc));
+                }
+            }
+        };
+        let limit = match self.plan.grant {
+            Grant::Drip { steps, .. } => steps,
+            Grant::Alternate { .. } => 60,
+            Grant::StreamThenConn | Grant::ConnThenStream => 40,
+            Grant::Burst | Grant::ExactFit => 0,
+        };
+        if self.steps >= limit {
+            self.flooded = true;
+            all_streams(&mut frames);
+            conn_all(&mut frames);
+        } else {
+            match self.plan.grant.clone() {
+                Grant::Drip { n, .. } => some(&mut frames, n, true, true),
+                Grant::Alternate { c: n } => {
+                    if self.steps % 2 == 0 {
+                        some(&mut frames, n, true, false)
+                    } else {
+                        some(&mut frames, n, false, true)
+                    }
+                }
+                Grant::StreamThenConn => {
+                    if any_stream_blocked {
+                        all_streams(&mut frames)
+                    } else {
+                        conn_all(&mut frames)
+                    }
+                }
+                Grant::ConnThenStream => {
+                    if conn_blocked {
+                        conn_all(&mut frames)
+                    } else {
+                        all_streams(&mut frames)
+                    }
+                }
+                Grant::Burst | Grant::ExactFit => unreachable!(),
+            }
+        }
+        self.steps += 1;
+        self.last_rx = Instant::now();
+        if !frames.is_empty() {
+            self.stats.grants += frames.len() as u64;
+            c.send_frames(&frames)?;
+        }
+        Ok(())
+    }
+}
+
+// ================================================================================================
+// Shared view of the backend's progress (the client thread is the judge of a stall)
+// ================================================================================================
+
+#[derive(Clone, Debug, Default)]
+struct BackProg {
+    conn: usize,
+    up_recv: u64,
+    up_done: bool,
+    down_sent: u64,
+    down_done: bool,
+    /// h2c only: sozu's remaining credit on the request stream / connection as granted by the backend
+    stream_window: i64,
+    conn_window: i64,
+    /// h2c only: the backend's credit from sozu for the response
+    send_credit: i64,
+    flooded: bool,
+    reset: Option<u32>,
+}
+
+#[derive(Default)]
+struct Shared {
+    prog: Mutex<BTreeMap<u64, BackProg>>,
+    /// (kind, detail, trace) from backend-side ledgers
+    back_violations: Mutex<Vec<(String, String, Vec<String>, usize)>>,
+    back_other: Mutex<Vec<String>>,
+    back_stats: Mutex<SideStats>,
+    corrupt: Mutex<Vec<String>>,
+    stop: AtomicBool,
+    live_conns: std::sync::atomic::AtomicUsize,
+    back_after_corruption: std::sync::atomic::AtomicUsize,
+    /// header of a frame a backend connection was still waiting to complete when it ended
+    back_pending_headers: Mutex<Vec<String>>,
+}
+
+fn parse_path(path: &str) -> Option<(u64, usize, usize)> {
+    let mut it = path.trim_start_matches("/t/").split('/');
+    Some((it.next()?.parse().ok()?, it.next()?.parse().ok()?, it.next()?.parse().ok()?))
+}
+
+fn trace_around<S: Transport>(c: &H2Conn<S>, frame_index: usize) -> Vec<String> {
+    // position of the inbound frame `frame_index` in the combined trace
+    let mut seen = 0usize;
+    let mut pos = c.trace.len();
+    for (i, t) in c.trace.iter().enumerate() {
+        if t.inbound {
+            if seen == frame_index {
+                pos = i;
+                break;
+            }
+            seen += 1;
+        }
+    }
+    let from = pos.saturating_sub(30);
+    let to = (pos + 3).min(c.trace.len());
+    c.trace[from..to].iter().map(|t| t.describe()).collect()
+}
+
+
+/// where do the bytes after a mismatch come from? (same transfer at another offset, or another transfer)
+fn locate(ids: &[u64], probe: &[u8], max_len: usize) -> String {
+    if probe.len() < 12 {
+        return "too few bytes left to localise".to_owned();
+    }
+    let probe = &probe[..probe.len().min(16)];
+    for id in ids {
+        for dir in [*id | DOWN_ID, *id] {
+            let ks = keystream(dir, 0, max_len + 16);
+            if let Some(pos) = ks.windows(probe.len()).position(|w| w == probe) {
+                return format!("these octets are offset {pos} of the {} body of transfer {id}", if dir & DOWN_ID != 0 { "response" } else { "request" });
+            }
+        }
+    }
+    "these octets match no transfer of the connection".to_owned()
+}
+
+// ---- HTTP/1.1 backend --------------------------------------------------------------------------
+
+fn h1_backend(addr: SocketAddr, prog: IoProgram, shared: Arc<Shared>) -> std::io::Result<BackendServer> {
+    let io = prog.clone();
+    BackendServer::start(addr, prog, move |mut s, conn| {
+        let mut p = h1::Parser::new(h1::Kind::Request, false);
+        let mut buf = vec![0u8; 65536];
+        let mut cur: Option<(u64, usize, usize)> = None;
+        let mut got = 0u64;
+        loop {
+            if shared.stop.load(Ordering::SeqCst) {
+                return;
+            }
+            let n = match peers::paced_read(&mut s, &mut buf, &io, Duration::from_millis(200)) {
+                Ok(0) => return,
+                Ok(n) => n,
+                Err(e) if e.kind() == std::io::ErrorKind::TimedOut => continue,
+                Err(_) => return,
+            };
+            let Ok(events) = p.feed(&buf[..n]) else {
+                shared.corrupt.lock().unwrap().push("h1 backend: unparsable request from sozu".to_owned());
+                return;
+            };
+            for e in events {
+                match e {
+                    h1::Event::Head(h) => {
+                        cur = parse_path(&h.second);
+                        got = 0;
+                        if let Some((id, _, _)) = cur {
+                            shared.prog.lock().unwrap().insert(id, BackProg { conn, stream_window: i64::MAX, conn_window: i64::MAX, send_credit: i64::MAX, ..Default::default() });
+                        }
+                    }
+                    h1::Event::Body(b) => {
+                        if let Some((id, _, _)) = cur {
+                            if let Some(k) = keystream_mismatch(id, got, &b) {
+                                shared.corrupt.lock().unwrap().push(format!("request body of transfer {id} differs from its keystream at offset {}", got + k as u64));
+                            }
+                            got += b.len() as u64;
+                            if let Some(pr) = shared.prog.lock().unwrap().get_mut(&id) {
+                                pr.up_recv = got;
+                            }
+                        }
+                    }
+                    h1::Event::End(_) => {
+                        let Some((id, up, down)) = cur.take() else { continue };
+                        if got != up as u64 {
+                            shared.corrupt.lock().unwrap().push(format!("request body of transfer {id} ended after {got} of {up} octets"));
+                        }
+                        if let Some(pr) = shared.prog.lock().unwrap().get_mut(&id) {
+                            pr.up_done = true;
+                        }
+                        let head = format!("HTTP/1.1 200 OK\r\nContent-Length: {down}\r\n\r\n");
+                        let deadline = Instant::now() + Duration::from_secs(120);
+                        if peers::paced_write(&mut s, head.as_bytes(), &io, deadline).is_err() {
+                            return;
+                        }
+                        let _ = s.set_write_timeout(Some(Duration::from_millis(200)));
+                        let seg = if io.write_seg == 0 { 16_384 } else { io.write_seg };
+                        let mut off = 0usize;
+                        let mut chunk: Vec<u8> = Vec::new();
+                        let mut chunk_off = 0usize;
+                        while off < down {
+                            if shared.stop.load(Ordering::SeqCst) {
+                                return;
+                            }
+                            if chunk_off == chunk.len() {
+                                chunk = keystream(id | DOWN_ID, off as u64, (down - off).min(seg));
+                                chunk_off = 0;
+                            }
+                            match s.write(&chunk[chunk_off..]) {
+                                Ok(0) => return,
+                                Ok(n) => {
+                                    chunk_off += n;
+                                    off += n;
+                                    if io.write_pause_us > 0 {
+                                        std::thread::sleep(Duration::from_micros(io.write_pause_us));
+                                    }
+                                }
+                                Err(e) if matches!(e.kind(), std::io::ErrorKind::WouldBlock | std::io::ErrorKind::TimedOut | std::io::ErrorKind::Interrupted) => {}
+                                Err(_) => return,
+                            }
+                            if let Some(pr) = shared.prog.lock().unwrap().get_mut(&id) {
+                                pr.down_sent = off as u64;
+                            }
+                        }
+                        if let Some(pr) = shared.prog.lock().unwrap().get_mut(&id) {
+                            pr.down_sent = down as u64;
+                            pr.down_done = true;
+                        }
+                    }
+                }
+            }
+        }
+    })
+}
+
+// ---- h2c backend -------------------------------------------------------------------------------
+
+struct BackX {
+    id: u64,
+    up: usize,
+    down: usize,
+    got: u64,
+    up_done: bool,
+    resp_started: bool,
+    sent: usize,
+    done: bool,
+}
+
+fn h2c_backend(addr: SocketAddr, plans: Vec<PeerPlan>, shared: Arc<Shared>) -> std::io::Result<BackendServer> {
+    let mut listen_io = IoProgram::fast();
+    listen_io.rcvbuf = plans.iter().map(|p| p.io.rcvbuf).max().unwrap_or(0);
+    BackendServer::start(addr, listen_io, move |s, conn| {
+        shared.live_conns.fetch_add(1, Ordering::SeqCst);
+        let plan = &plans[conn % plans.len()];
+        let mut rx = Receiver::new(plan);
+        let mut c = H2Conn::new(s, Role::Server);
+        rx.setup(&mut c);
+        c.read_timeout = Duration::from_secs(5);
+        let r = h2c_serve(&mut c, &mut rx, conn, &shared);
+        if let Err(e) = r {
+            if !shared.stop.load(Ordering::SeqCst) && e != H2Error::Closed {
+                shared.back_other.lock().unwrap().push(format!("h2c backend conn {conn}: {e}"));
+            }
+        }
+        rx.stats.absorb(&c);
+        rx.stats.streams = c.streams.len() as u64;
+        if let Some(h) = c.pending_header() {
+            shared.back_pending_headers.lock().unwrap().push(format!("conn {conn}: {}", h.describe()));
+        }
+        for v in &c.ledger_violations {
+            if rx.corrupt_at.is_some_and(|at| v.frame_index >= at) {
+                shared.back_after_corruption.fetch_add(1, Ordering::SeqCst);
+            } else if C14_KINDS.contains(&v.kind) {
+                shared.back_violations.lock().unwrap().push((v.kind.to_owned(), v.detail.clone(), trace_around(&c, v.frame_index), conn));
+            } else {
+                shared.back_other.lock().unwrap().push(format!("{}: {}", v.kind, v.detail));
+            }
+        }
+        merge_stats(&mut shared.back_stats.lock().unwrap(), &rx.stats);
+        shared.live_conns.fetch_sub(1, Ordering::SeqCst);
+    })
+}
+
+fn merge_stats(into: &mut SideStats, s: &SideStats) {
+    into.conns += s.conns;
+    into.streams += s.streams;
+    into.data_frames += s.data_frames;
+    into.flow_bytes += s.flow_bytes;
+    into.window_stalls += s.window_stalls;
+    into.ledger_stalls += s.ledger_stalls;
+    into.settings_changes += s.settings_changes;
+    into.shrink_negative += s.shrink_negative;
+    into.grants += s.grants;
+    into.goaways += s.goaways;
+    into.max_frame_seen = into.max_frame_seen.max(s.max_frame_seen);
+    into.max_frame_allowed = into.max_frame_allowed.max(s.max_frame_allowed);
+    into.max_open = into.max_open.max(s.max_open);
+    for (k, v) in &s.adv {
+        *into.adv.entry(k.clone()).or_insert(0) += v;
+    }
+}
+
+fn h2c_serve(c: &mut H2Conn<std::net::TcpStream>, rx: &mut Receiver, conn: usize, shared: &Shared) -> Result<(), H2Error> {
+    c.handshake_server(&rx.plan.settings)?;
+    let mut xs: BTreeMap<u32, BackX> = BTreeMap::new();
+    loop {
+        if shared.stop.load(Ordering::SeqCst) {
+            return Ok(());
+        }
+        // responses, obeying sozu's windows, round robin
+        let mut could_send = false;
+        let sids: Vec<u32> = xs.iter().filter(|(_, x)| x.up_done && !x.done).map(|(s, _)| *s).collect();
+        for sid in sids {
+            let x = xs.get_mut(&sid).expect("present");
+            if !x.resp_started {
+                x.resp_started = true;
+                let end = x.down == 0 && x.id % 2 == 0;
+                c.send_headers(sid, &h2::response_headers(200, &[("x-c14", "h2c")]), end)?;
+                if end {
+                    x.done = true;
+                    continue;
+                }
+            }
+            let credit = c.send_credit(sid);
+            if x.down == 0 {
+                c.send_data_avail(sid, &[], true, None)?;
+                x.done = true;
+            } else if credit > 0 {
+                let n = (x.down - x.sent).min(32_768).min(credit as usize);
+                let chunk = keystream(x.id | DOWN_ID, x.sent as u64, n);
+                let sent = c.send_data_avail(sid, &chunk, x.sent + n == x.down, None)?;
+                x.sent += sent;
+                if x.sent == x.down {
+                    x.done = true;
+                }
+                could_send |= sent > 0 && !x.done;
+            }
+        }
+        let mut wait = if could_send { Duration::ZERO } else { Duration::from_millis(2) };
+        while let Some(ev) = c.poll(wait)? {
+            wait = Duration::ZERO;
+            match ev {
+                Event::Headers { stream, headers, end_stream } => {
+                    if let Some(x) = xs.get_mut(&stream) {
+                        if end_stream {
+                            x.up_done = true;
+                        }
+                    } else {
+                        let path = h2::header_str(&headers, ":path").unwrap_or_default();
+                        let Some((id, up, down)) = parse_path(&path) else {
+                            shared.corrupt.lock().unwrap().push(format!("h2c backend: request with unexpected path {path:?}"));
+                            continue;
+                        };
+                        xs.insert(stream, BackX { id, up, down, got: 0, up_done: end_stream, resp_started: false, sent: 0, done: false });
+                        shared.prog.lock().unwrap().insert(id, BackProg { conn, ..Default::default() });
+                    }
+                }
+                Event::Data { stream, data, flow_len, end_stream } => {
+                    if let Some(x) = xs.get_mut(&stream) {
+                        if let Some(k) = keystream_mismatch(x.id, x.got, &data) {
+                            if rx.corrupt_at.is_none() {
+                                rx.corrupt_at = Some(c.frames_in.len().saturating_sub(1));
+                                let lo = k.saturating_sub(8);
+                                let hi = (k + 40).min(data.len());
+                                shared.corrupt.lock().unwrap().push(format!(
+                                    "request body of transfer {} differs from its keystream at offset {} (frame of {} octets, mismatch at +{k}); received[{lo}..{hi}]={} expected={}",
+                                    x.id,
+                                    x.got + k as u64,
+                                    data.len(),
+                                    hex::encode(&data[lo..hi]),
+                                    hex::encode(keystream(x.id, x.got + lo as u64, hi - lo))
+                                ));
+                            }
+                        }
+                        x.got += data.len() as u64;
+                        if end_stream {
+                            x.up_done = true;
+                            if x.got != x.up as u64 {
+                                shared.corrupt.lock().unwrap().push(format!("request body of transfer {} ended after {} of {} octets", x.id, x.got, x.up));
+                            }
+                        }
+                    }
+                    rx.after_data(c, stream, flow_len, end_stream)?;
+                }
+                Event::RstStream { stream, code } => {
+                    if let Some(x) = xs.get_mut(&stream) {
+                        x.done = true;
+                        if let Some(p) = shared.prog.lock().unwrap().get_mut(&x.id) {
+                            p.reset = Some(code);
+                        }
+                    }
+                }
+                Event::Settings { ack: true, .. } => rx.on_settings_ack(c),
+                Event::Closed => return Ok(()),
+                _ => {}
+            }
+        }
+        let needs: Vec<(u32, u64)> = xs.iter().filter(|(_, x)| !x.up_done).map(|(s, x)| (*s, (x.up as u64).saturating_sub(x.got))).collect();
+        rx.tick(c, &needs)?;
+        {
+            let mut prog = shared.prog.lock().unwrap();
+            for (sid, x) in &xs {
+                if let Some(p) = prog.get_mut(&x.id) {
+                    p.up_recv = x.got;
+                    p.up_done = x.up_done;
+                    p.down_sent = x.sent as u64;
+                    p.down_done = x.done;
+                    p.stream_window = c.streams.get(sid).map(|s| s.recv_window).unwrap_or(0);
+                    p.conn_window = c.conn_recv_window;
+                    p.send_credit = c.send_credit(*sid);
+                    p.flooded = rx.flooded;
+                }
+            }
+        }
+        xs.retain(|_, x| !(x.done && x.up_done) || x.got < x.up as u64);
+    }
+}
+
+// ================================================================================================
+// Client side
+// ================================================================================================
+
+#[derive(Clone, Debug, Default)]
+struct XState {
+    id: u64,
+    sid: u32,
+    up: usize,
+    down: usize,
+    up_sent: usize,
+    status: Option<String>,
+    down_recv: usize,
+    done: bool,
+    exempt: bool,
+    failed: Option<String>,
+    corrupt_seen: bool,
+}
+
+#[derive(Default)]
+struct ConnOutcome {
+    violations: Vec<(String, String, Vec<String>)>,
+    other: Vec<String>,
+    stats: SideStats,
+    xfers: Vec<XState>,
+    /// (class, detail) when the watchdog fired
+    stuck: Option<(String, String)>,
+    aborted: Vec<(String, String)>,
+    corrupt: Vec<String>,
+    corrupt_hex: Option<String>,
+    /// index (in frames_in) of the first frame whose payload was not the expected keystream
+    corrupt_at: Option<usize>,
+    harness_error: Option<String>,
+    trace_tail: Vec<String>,
+    own_window_waits: u64,
+    after_corruption: u64,
+    pending_header: Option<String>,
+    uploaded: u64,
+    peer_iws: u32,
+}
+
+fn classify_stuck(x: &XState, bp: Option<&BackProg>, c: &H2Conn<tls::TlsClient>, back_h2c: bool, pad: usize) -> (String, String) {
+    let Some(bp) = bp else {
+        return ("no_backend_stream".to_owned(), format!("transfer {} never reached the backend", x.id));
+    };
+    let s = c.streams.get(&x.sid);
+    if !bp.up_done {
+        let (uc, ub) = (x.up_sent as u64, bp.up_recv);
+        if ub < uc {
+            if !back_h2c || (bp.stream_window > 0 && bp.conn_window > 0) {
+                return ("back".to_owned(), format!(
+                    "upload of transfer {}: client sent {uc}, backend received {ub}; backend credit stream {} connection {} (flooded {})",
+                    x.id, bp.stream_window, bp.conn_window, bp.flooded));
+            }
+            return ("harness_back_credit".to_owned(), format!("backend windows {} / {} with {} octets held by sozu", bp.stream_window, bp.conn_window, uc - ub));
+        }
+        if x.up_sent < x.up {
+            let credit = c.send_credit(x.sid) - pad as i64;
+            if credit <= 0 {
+                return ("own_window_front".to_owned(), format!(
+                    "upload of transfer {}: all {uc} octets sent so far reached the backend, sozu's windows towards the client stay closed (stream {} connection {})",
+                    x.id, s.map(|s| s.send_window).unwrap_or(0), c.conn_send_window));
+            }
+            return ("harness_client".to_owned(), format!("client had credit {credit} but did not send"));
+        }
+        return ("back".to_owned(), format!("upload of transfer {}: all {uc} octets reached the backend but not the end of the request", x.id));
+    }
+    let (db, dc) = (bp.down_sent, x.down_recv as u64);
+    if dc < db {
+        let (sw, cw) = (s.map(|s| s.recv_window).unwrap_or(0), c.conn_recv_window);
+        if sw > 0 && cw > 0 {
+            return ("front".to_owned(), format!(
+                "download of transfer {}: backend sent {db}, client received {dc}; client credit stream {sw} connection {cw}", x.id));
+        }
+        return ("harness_front_credit".to_owned(), format!("client windows {sw} / {cw} with {} octets held by sozu", db - dc));
+    }
+    if db < x.down as u64 {
+        if back_h2c && bp.send_credit <= 0 {
+            return ("own_window_back".to_owned(), format!(
+                "download of transfer {}: all {db} octets the backend could send reached the client, sozu's windows towards the backend stay closed (credit {})",
+                x.id, bp.send_credit));
+        }
+        return ("harness_backend".to_owned(), format!("backend sent {db} of {} and is not blocked by windows", x.down));
+    }
+    if x.status.is_none() && x.down == 0 && !bp.down_done {
+        return ("harness_backend".to_owned(), "backend did not answer".to_owned());
+    }
+    ("front".to_owned(), format!("download of transfer {}: all {db} octets reached the client but not the end of the response (status {:?})", x.id, x.status))
+}
+
+fn run_conn(plan: &ConnPlan, front: SocketAddr, shared: &Shared, back_h2c: bool, watchdog: Duration) -> ConnOutcome {
+    let mut out = ConnOutcome::default();
+    let mut rx = Receiver::new(&plan.front);
+    let mut cio = plan.front.io.clone();
+    cio.sndbuf = 0;
+    let tcp = match peers::connect(front, None, &cio, Duration::from_secs(3)) {
+        Ok(t) => t,
+        Err(e) => {
+            out.harness_error = Some(format!("connect: {e}"));
+            return out;
+        }
+    };
+    let t = match tls::TlsClient::handshake(tcp, HOST, tls::client_config(&["h2"]), Duration::from_secs(5)) {
+        Ok((t, info)) if info.alpn.as_deref() == Some(b"h2") => t,
+        Ok(_) => {
+            out.harness_error = Some("ALPN h2 not selected".to_owned());
+            return out;
+        }
+        Err(e) => {
+            out.harness_error = Some(format!("tls: {e}"));
+            return out;
+        }
+    };
+    let mut c = H2Conn::new(t, Role::Client);
+    rx.setup(&mut c);
+    let mut xs: Vec<XState> = plan.xfers.iter().map(|x| XState { id: x.id, up: x.up, down: x.down, ..Default::default() }).collect();
+    let r = client_loop(&mut c, &mut rx, plan, &mut xs, shared, back_h2c, watchdog, &mut out);
+    if let Err(e) = r {
+        // an I/O error while transfers are pending = the connection went away under us
+        for x in xs.iter_mut().filter(|x| !x.done && x.failed.is_none()) {
+            x.failed = Some(format!("connection error: {e}"));
+        }
+    }
+    let _ = c.send_goaway(0, h2::ERR_NO_ERROR, b"");
+    if c.peer_settings_frames == 0 && c.is_closed() {
+        // sozu closed before even sending its SETTINGS: no H2 connection ever existed, nothing of
+        // this property can be judged on it
+        out.harness_error = Some("closed before sozu's SETTINGS".to_owned());
+        out.trace_tail = c.trace_tail(20);
+        return out;
+    }
+    rx.stats.absorb(&c);
+    rx.stats.streams = xs.iter().filter(|x| x.sid != 0).count() as u64;
+    for v in &c.ledger_violations {
+        if out.corrupt_at.is_some_and(|at| v.frame_index >= at) {
+            out.after_corruption += 1; // the byte stream is desynchronised from there on
+        } else if C14_KINDS.contains(&v.kind) {
+            out.violations.push((v.kind.to_owned(), v.detail.clone(), trace_around(&c, v.frame_index)));
+        } else {
+            out.other.push(format!("{}: {}", v.kind, v.detail));
+        }
+    }
+    out.pending_header = c.pending_header().map(|h| h.describe());
+    for x in &xs {
+        if let Some(f) = &x.failed {
+            if !x.exempt {
+                let phase = if shared.prog.lock().unwrap().get(&x.id).is_some_and(|b| b.up_done) { "front" } else { "back" };
+                out.aborted.push((phase.to_owned(), format!("transfer {} (stream {}, up {}/{} down {}/{} status {:?}): {f}", x.id, x.sid, x.up_sent, x.up, x.down_recv, x.down, x.status)));
+            }
+        }
+    }
+    out.trace_tail = c.trace_tail(ctx_trace_len());
+    out.peer_iws = c.peer_settings.initial_window_size;
+    out.stats = rx.stats.clone();
+    out.xfers = xs;
+    out
+}
+
+
+/// HTTP/1.1 keep-alive client over plain TCP: sequential transfers; only the backend leg is H2
+fn run_conn_h1(plan: &ConnPlan, front: SocketAddr, shared: &Shared, watchdog: Duration) -> ConnOutcome {
+    let mut out = ConnOutcome::default();
+    let mut xs: Vec<XState> = plan.xfers.iter().map(|x| XState { id: x.id, up: x.up, down: x.down, ..Default::default() }).collect();
+    let io = IoProgram::fast();
+    let mut buf = vec![0u8; 65536];
+    let soft = |e: &std::io::Error| matches!(e.kind(), std::io::ErrorKind::WouldBlock | std::io::ErrorKind::TimedOut | std::io::ErrorKind::Interrupted);
+    // one TCP connection per transfer: sozu answers 502 to every second request of a keep-alive
+    // HTTP/1.1 connection towards an H2 backend (not this property's business)
+    'xfers: for (i, x) in xs.iter_mut().enumerate() {
+        let mut s = match peers::connect(front, None, &io, Duration::from_secs(3)) {
+            Ok(s) => s,
+            Err(e) => {
+                out.harness_error = Some(format!("connect: {e}"));
+                return out;
+            }
+        };
+        let _ = s.set_write_timeout(Some(Duration::from_millis(50)));
+        let _ = s.set_read_timeout(Some(Duration::from_millis(50)));
+        let mut parser = h1::Parser::new(h1::Kind::Response, false);
+        let mut write_failed: Option<String> = None;
+        x.sid = (i + 1) as u32;
+        let xp = &plan.xfers[i];
+        let method = if xp.up > 0 { "POST" } else { "GET" };
+        let head = format!("{method} /t/{}/{}/{} HTTP/1.1\r\nHost: {HOST}\r\nConnection: close\r\nContent-Length: {}\r\n\r\n", xp.id, xp.up, xp.down, xp.up);
+        let mut pending: Vec<u8> = head.into_bytes();
+        let mut pending_off = 0usize;
+        let mut body_off = 0usize;
+        let mut last_progress = Instant::now();
+        // request
+        loop {
+            if pending_off == pending.len() {
+                if body_off == xp.up {
+                    break;
+                }
+                let n = (xp.up - body_off).min(plan.up_quantum).min(65_536);
+                pending = keystream(xp.id, body_off as u64, n);
+                pending_off = 0;
+                body_off += n;
+            }
+            match s.write(&pending[pending_off..]) {
+                Ok(0) => {
+                    write_failed = Some("connection closed while sending the request".to_owned());
+                    break;
+                }
+                Ok(n) => {
+                    pending_off += n;
+                    last_progress = Instant::now();
+                    x.up_sent = (body_off - (pending.len() - pending_off)).min(xp.up);
+                    out.uploaded += n as u64;
+                }
+                Err(e) if soft(&e) => {}
+                Err(e) => {
+                    // sozu may have answered early (e.g. 503) and closed: look at the response
+                    write_failed = Some(format!("write: {e}"));
+                    break;
+                }
+            }
+            if last_progress.elapsed() > watchdog {
+                let prog = shared.prog.lock().unwrap();
+                out.stuck = Some(match prog.get(&x.id) {
+                    Some(bp) if bp.stream_window > 0 && bp.conn_window > 0 => (
+                        "back".to_owned(),
+                        format!("upload of transfer {} (HTTP/1.1 client): client wrote {}, backend received {}; backend credit stream {} connection {}", x.id, x.up_sent, bp.up_recv, bp.stream_window, bp.conn_window),
+                    ),
+                    Some(bp) => ("harness_back_credit".to_owned(), format!("backend windows {} / {}", bp.stream_window, bp.conn_window)),
+                    None => ("no_backend_stream".to_owned(), format!("transfer {} never reached the backend", x.id)),
+                });
+                break 'xfers;
+            }
+        }
+        if write_failed.is_none() {
+            x.up_sent = xp.up;
+        }
+        // response
+        let mut last_progress = Instant::now();
+        loop {
+            match s.read(&mut buf) {
+                Ok(0) => {
+                    if !x.exempt {
+                        x.failed = Some(write_failed.clone().unwrap_or_else(|| "connection closed before the end of the response".to_owned()));
+                    }
+                    continue 'xfers;
+                }
+                Ok(n) => {
+                    last_progress = Instant::now();
+                    let Ok(events) = parser.feed(&buf[..n]) else {
+                        x.failed = Some("unparsable HTTP/1.1 response".to_owned());
+                        continue 'xfers;
+                    };
+                    for e in events {
+                        match e {
+                            h1::Event::Head(h) => {
+                                x.status = h.status().map(|s| s.to_string());
+                                x.exempt = x.status.as_deref() != Some("200");
+                            }
+                            h1::Event::Body(b) => {
+                                if !x.exempt {
+                                    if let Some(k) = keystream_mismatch(x.id | DOWN_ID, x.down_recv as u64, &b) {
+                                        out.corrupt.push(format!("response body of transfer {} differs from its keystream at offset {}", x.id, x.down_recv + k));
+                                    }
+                                }
+                                x.down_recv += b.len();
+                            }
+                            h1::Event::End(_) => {
+                                x.done = true;
+                                if !x.exempt && x.down_recv != x.down {
+                                    out.corrupt.push(format!("response of transfer {} ended after {} of {} octets", x.id, x.down_recv, x.down));
+                                }
+                            }
+                        }
+                    }
+                    if x.done {
+                        break;
+                    }
+                }
+                Err(e) if soft(&e) => {}
+                Err(e) => {
+                    if !x.exempt {
+                        x.failed = Some(write_failed.clone().unwrap_or_else(|| format!("read: {e}")));
+                    }
+                    continue 'xfers;
+                }
+            }
+            if write_failed.is_some() && last_progress.elapsed() > Duration::from_secs(2) {
+                x.failed = write_failed.clone();
+                continue 'xfers;
+            }
+            if last_progress.elapsed() > watchdog {
+                let prog = shared.prog.lock().unwrap();
+                out.stuck = Some(match prog.get(&x.id) {
+                    Some(bp) if !bp.up_done && bp.stream_window > 0 && bp.conn_window > 0 => (
+                        "back".to_owned(),
+                        format!("upload of transfer {} (HTTP/1.1 client): all {} octets written, backend received {} (end seen: false); backend credit stream {} connection {}", x.id, xp.up, bp.up_recv, bp.stream_window, bp.conn_window),
+                    ),
+                    Some(bp) if bp.up_done && bp.down_sent == x.down_recv as u64 && bp.down_sent < x.down as u64 && bp.send_credit <= 0 => (
+                        "own_window_back".to_owned(),
+                        format!("download of transfer {} (HTTP/1.1 client): all {} octets the backend could send reached the client, sozu's windows towards the backend stay closed (credit {})", x.id, bp.down_sent, bp.send_credit),
+                    ),
+                    Some(bp) => ("h1_front_leg".to_owned(), format!("backend {bp:?}, client received {}", x.down_recv)),
+                    None => ("no_backend_stream".to_owned(), format!("transfer {} never reached the backend", x.id)),
+                });
+                break 'xfers;
+            }
+        }
+    }
+    for x in &xs {
+        if let Some(f) = &x.failed {
+            if !x.exempt {
+                let phase = if shared.prog.lock().unwrap().get(&x.id).is_some_and(|b| b.up_done) { "front_h1" } else { "back" };
+                out.aborted.push((phase.to_owned(), format!("transfer {} (HTTP/1.1 client, up {}/{} down {}/{} status {:?}): {f}", x.id, x.up_sent, x.up, x.down_recv, x.down, x.status)));
+            }
+        }
+    }
+    out.stats.adv.insert("h1_client_connections".to_owned(), 1);
+    out.xfers = xs;
+    out
+}
+
+#[allow(clippy::too_many_arguments)]
+fn client_loop(
+    c: &mut H2Conn<tls::TlsClient>,
+    rx: &mut Receiver,
+    plan: &ConnPlan,
+    xs: &mut [XState],
+    shared: &Shared,
+    back_h2c: bool,
+    watchdog: Duration,
+    out: &mut ConnOutcome,
+) -> Result<(), H2Error> {
+    c.handshake_client(&plan.front.settings)?;
+    let mut last_progress = Instant::now();
+    let mut next_open = 0usize;
+    loop {
+        // open streams
+        let inflight = xs.iter().filter(|x| x.sid != 0 && !x.done && x.failed.is_none()).count();
+        let limit = plan.max_inflight.min(c.peer_settings.max_concurrent_streams as usize);
+        let mut room = limit.saturating_sub(inflight);
+        while room > 0 && next_open < xs.len() {
+            let xp = &plan.xfers[next_open];
+            let sid = c.next_stream_id();
+            let path = format!("/t/{}/{}/{}", xp.id, xp.up, xp.down);
+            let cl = xp.up.to_string();
+            let mut extra: Vec<(&str, &str)> = vec![("x-c14", "1")];
+            if xp.content_length && xp.up > 0 {
+                extra.push(("content-length", &cl));
+            }
+            let method = if xp.up > 0 { "POST" } else { "GET" };
+            c.send_headers(sid, &h2::request_headers(method, "https", HOST, &path, &extra), xp.up == 0)?;
+            xs[next_open].sid = sid;
+            next_open += 1;
+            room -= 1;
+            last_progress = Instant::now();
+        }
+        // uploads, obeying sozu's windows, round robin in quanta
+        let mut could_send = false;
+        for (i, x) in xs.iter_mut().enumerate() {
+            if x.sid == 0 || x.up_sent >= x.up || x.failed.is_some() || x.done {
+                continue;
+            }
+            let pad = plan.xfers[i].pad;
+            let overhead = pad.map(|p| p as i64 + 1).unwrap_or(0);
+            let credit = c.send_credit(x.sid) - overhead;
+            if credit <= 0 {
+                out.own_window_waits += 1;
+                continue;
+            }
+            // tiny DATA frames only for small bodies: a burst of > 10 000 frames trips sozu's event-loop
+            // budget (MAX_LOOP_ITERATIONS), a defence that has nothing to do with the peer's limits
+            let quantum = if x.up > 4096 { plan.up_quantum.max(16_384) } else { plan.up_quantum };
+            let n = (x.up - x.up_sent).min(quantum).min(credit as usize).min(1 << 18);
+            let chunk = keystream(x.id, x.up_sent as u64, n);
+            let sent = c.send_data_avail(x.sid, &chunk, x.up_sent + n == x.up, pad)?;
+            x.up_sent += sent;
+            out.uploaded += sent as u64;
+            if sent > 0 {
+                last_progress = Instant::now();
+                could_send |= x.up_sent < x.up;
+            }
+        }
+        let mut wait = if could_send { Duration::ZERO } else { Duration::from_millis(2) };
+        while let Some(ev) = c.poll(wait)? {
+            wait = Duration::ZERO;
+            match ev {
+                Event::Headers { stream, headers, end_stream } => {
+                    if let Some(x) = xs.iter_mut().find(|x| x.sid == stream) {
+                        last_progress = Instant::now();
+                        if let Some(st) = h2::header_str(&headers, ":status") {
+                            if !st.starts_with('1') {
+                                x.exempt |= st != "200";
+                                x.status = Some(st);
+                            }
+                        }
+                        if end_stream {
+                            x.done = true;
+                            if !x.exempt && x.down_recv != x.down {
+                                out.corrupt.push(format!("response of transfer {} ended after {} of {} octets", x.id, x.down_recv, x.down));
+                            }
+                        }
+                    }
+                }
+                Event::Data { stream, data, flow_len, end_stream } => {
+                    if let Some(x) = xs.iter_mut().find(|x| x.sid == stream) {
+                        last_progress = Instant::now();
+                        if !x.exempt {
+                            if let Some(k) = keystream_mismatch(x.id | DOWN_ID, x.down_recv as u64, &data) {
+                                if !x.corrupt_seen {
+                                    x.corrupt_seen = true;
+                                    out.corrupt_at.get_or_insert(c.frames_in.len().saturating_sub(1));
+                                    let ids: Vec<u64> = plan.xfers.iter().map(|p| p.id).collect();
+                                    let max_len = plan.xfers.iter().map(|p| p.up.max(p.down)).max().unwrap_or(0);
+                                    out.corrupt.push(format!(
+                                        "response body of transfer {} differs from its keystream at offset {} (frame of {} octets, mismatch at +{k}): {}",
+                                        x.id, x.down_recv + k, data.len(), locate(&ids, &data[k..], max_len)
+                                    ));
+                                    let lo = k.saturating_sub(8);
+                                    let hi = (k + 40).min(data.len());
+                                    out.corrupt_hex = Some(format!(
+                                        "received[{lo}..{hi}]={} expected={}",
+                                        hex::encode(&data[lo..hi]),
+                                        hex::encode(keystream(x.id | DOWN_ID, (x.down_recv + lo) as u64, hi - lo))
+                                    ));
+                                }
+                            }
+                        }
+                        x.down_recv += data.len();
+                        if end_stream {
+                            x.done = true;
+                            if !x.exempt && x.down_recv != x.down {
+                                out.corrupt.push(format!("response of transfer {} ended after {} of {} octets", x.id, x.down_recv, x.down));
+                            }
+                        }
+                    }
+                    rx.after_data(c, stream, flow_len, end_stream)?;
+                }
+                Event::RstStream { stream, code } => {
+                    if let Some(x) = xs.iter_mut().find(|x| x.sid == stream) {
+                        if !x.done {
+                            x.failed = Some(format!("RST_STREAM code {code}"));
+                        }
+                    }
+                }
+                Event::GoAway { last, code, debug } => {
+                    if code != h2::ERR_NO_ERROR {
+                        for x in xs.iter_mut().filter(|x| x.sid != 0 && !x.done && x.failed.is_none()) {
+                            x.failed = Some(format!("GOAWAY code {code} last {last} debug {:?}", String::from_utf8_lossy(&debug)));
+                        }
+                    }
+                }
+                Event::Settings { ack: true, .. } => rx.on_settings_ack(c),
+                Event::Closed => {
+                    for x in xs.iter_mut().filter(|x| !x.done && x.failed.is_none()) {
+                        x.failed = Some(format!("connection closed by sozu ({:?})", c.close_kind));
+                    }
+                    return Ok(());
+                }
+                _ => {}
+            }
+        }
+        let needs: Vec<(u32, u64)> = xs
+            .iter()
+            .filter(|x| x.sid != 0 && !x.done && x.failed.is_none() && !x.exempt)
+            .map(|x| (x.sid, (x.down as u64).saturating_sub(x.down_recv as u64)))
+            .collect();
+        rx.tick(c, &needs)?;
+        // exempt (non-200) streams still need credit for their error bodies
+        if xs.iter().any(|x| x.exempt && !x.done && x.failed.is_none()) {
+            let mut frames = Vec::new();
+            if c.conn_recv_window < 65_535 {
+                frames.push(Frame::window_update(0, 1 << 20));
+            }
+            for x in xs.iter().filter(|x| x.exempt && !x.done && x.failed.is_none()) {
+                if c.streams.get(&x.sid).is_some_and(|s| s.recv_window < 65_535 && !s.remote_end) {
+                    frames.push(Frame::window_update(x.sid, 1 << 20));
+                }
+            }
+            if !frames.is_empty() {
+                c.send_frames(&frames)?;
+            }
+        }
+        if next_open == xs.len() && xs.iter().all(|x| x.done || x.failed.is_some()) {
+            return Ok(());
+        }
+        if last_progress.elapsed() > watchdog {
+            let prog = shared.prog.lock().unwrap();
+            let mut best: Option<(String, String)> = None;
+            for (i, x) in xs.iter().enumerate() {
+                if x.sid == 0 || x.done || x.failed.is_some() {
+                    continue;
+                }
+                if x.exempt {
+                    best.get_or_insert(("exempt_status".to_owned(), format!("transfer {} answered {:?}", x.id, x.status)));
+                    continue;
+                }
+                let pad = plan.xfers[i].pad.map(|p| p as usize + 1).unwrap_or(0);
+                let cls = classify_stuck(x, prog.get(&x.id), c, back_h2c, pad);
+                let decisive = !cls.0.starts_with("harness") && cls.0 != "no_backend_stream";
+                if decisive {
+                    best = Some(cls);
+                    break;
+                }
+                best.get_or_insert(cls);
+            }
+            out.stuck = best.or(Some(("unopened".to_owned(), "streams could not be opened".to_owned())));
+            return Ok(());
+        }
+    }
+}
+
+// ================================================================================================
+// Cell
+// ================================================================================================
+
+struct Stuck {
+    case: u64,
+    class: String,
+    detail: String,
+    witness: Value,
+}
+
+fn fingerprint(plan: &CellPlan, cp: &ConnPlan) -> u64 {
+    let bucket = |n: usize| -> usize { if n == 0 { 0 } else { 64 - (n as u64).leading_zeros() as usize } };
+    let mut s = format!("{}{}|{:?}|{}|{}|", cp.front_h1, plan.back_h2c, cp.front.settings, cp.front.grant.name(), cp.front.changes.len());
+    s.push_str(&format!("{:?}|{}|", plan.back.iter().map(|b| (b.settings.clone(), b.grant.name())).collect::<Vec<_>>(), bucket(cp.xfers.len())));
+    for x in &cp.xfers {
+        s.push_str(&format!("{}.{},", bucket(x.up), bucket(x.down)));
+    }
+    crate::common::rng::fnv1a(s.as_bytes())
+}
+
+/// pairing restriction from `--opt backend=h1|h2c` / `--opt front=h1|h2` (stored in every witness so
+/// that a replay regenerates the same cell)
+#[derive(Clone, Copy, Debug, Default)]
+struct Force {
+    back_h2c: Option<bool>,
+    front_h1: Option<bool>,
+    thorough: bool,
+}
+
+impl Force {
+    fn from_ctx(ctx: &Ctx) -> Force {
+        Force {
+            back_h2c: ctx.opt("backend").map(|b| b == "h2c"),
+            front_h1: ctx.opt("front").map(|f| f == "h1"),
+            thorough: ctx.tier == crate::common::Tier::Thorough,
+        }
+    }
+    fn json(&self) -> Value {
+        json!({"backend_h2c": self.back_h2c, "front_h1": self.front_h1, "thorough_sizes": self.thorough})
+    }
+    fn from_json(v: &Value, fallback: Force) -> Force {
+        if !v.is_object() {
+            return fallback;
+        }
+        Force {
+            back_h2c: v["backend_h2c"].as_bool(),
+            front_h1: v["front_h1"].as_bool(),
+            thorough: v["thorough_sizes"].as_bool().unwrap_or(fallback.thorough),
+        }
+    }
+}
+
+fn run_cell(ctx: &Ctx, force: Force, seed: u64, case: u64, rep: &mut Report, solo: bool) -> Vec<Stuck> {
+    let plan = gen_cell(seed, case, force.thorough, force.back_h2c, force.front_h1);
+    let mut stuck_out = Vec::new();
+    let ip = lab::fresh_ip();
+    let front = lab::sa(ip, 8443);
+    let front_plain = lab::sa(ip, 8080);
+    let back = lab::sa(ip, 9000);
+    let shared = Arc::new(Shared::default());
+    let backend = if plan.back_h2c { h2c_backend(back, plan.back.clone(), shared.clone()) } else { h1_backend(back, plan.h1_io.clone(), shared.clone()) };
+    let mut backend = match backend {
+        Ok(b) => b,
+        Err(e) => {
+            rep.inconclusive(&format!("backend bind: {}", e.kind()));
+            return stuck_out;
+        }
+    };
+    let mut opts = WorkerOpts {
+        front_timeout: 600,
+        back_timeout: 600,
+        request_timeout: 600,
+        connect_timeout: 5,
+        buffer_size: plan.buffer_size,
+        ..WorkerOpts::default()
+    };
+    if let Some(v) = plan.front_sndbuf {
+        opts.knobs.push(("front_sndbuf".to_owned(), v));
+    }
+    if let Some(v) = plan.back_sndbuf {
+        opts.knobs.push(("back_sndbuf".to_owned(), v));
+    }
+    let mut w = Worker::start(opts);
+    let cert = std::fs::read_to_string("/repo/lib/assets/certificate.pem").unwrap_or_default();
+    let key = std::fs::read_to_string("/repo/lib/assets/key.pem").unwrap_or_default();
+    let own = plan.own_conn_window;
+    let ok = w.add_https_listener(front, |b| {
+        // documented defences that legitimately cancel slow peers / chatty peers: out of the way
+        b.h2_stream_idle_timeout_seconds = Some(3600);
+        b.h2_max_window_update_stream0_per_window = Some(1_000_000);
+        b.h2_max_settings_per_window = Some(100_000);
+        b.h2_max_ping_per_window = Some(100_000);
+        b.h2_max_glitch_count = Some(1_000_000);
+        b.h2_max_empty_data_per_window = Some(100_000);
+        b.h2_initial_connection_window = own;
+        b.front_timeout = Some(600);
+        b.back_timeout = Some(600);
+        b.request_timeout = Some(600);
+        b.connect_timeout = Some(5);
+    }) && w.add_http_listener(front_plain, |b| {
+        b.h2_stream_idle_timeout_seconds = Some(3600);
+        b.h2_max_window_update_stream0_per_window = Some(1_000_000);
+        b.h2_max_settings_per_window = Some(100_000);
+        b.h2_max_ping_per_window = Some(100_000);
+        b.h2_max_glitch_count = Some(1_000_000);
+        b.h2_max_empty_data_per_window = Some(100_000);
+        b.h2_initial_connection_window = own;
+        b.front_timeout = Some(600);
+        b.back_timeout = Some(600);
+        b.request_timeout = Some(600);
+        b.connect_timeout = Some(5);
+    }) && w.add_http_frontend(Worker::http_frontend("c", front_plain, HOST, "/"))
+        && w.add_cluster(Cluster { cluster_id: "c".into(), http2: plan.back_h2c.then_some(true), ..Default::default() })
+        && w.add_https_frontend(Worker::http_frontend("c", front, HOST, "/"))
+        && w.add_backend("c", "b0", back)
+        && w.add_certificate(front, &cert, vec![], &key, vec![HOST.into()]);
+    if !ok {
+        rep.inconclusive("sozu refused the cell configuration");
+        w.stop();
+        backend.stop();
+        return stuck_out;
+    }
+    let watchdog = Duration::from_millis(ctx.opt_u64("watchdog_ms", if solo { 8_000 } else { 4_000 }));
+    let mut front_stats = SideStats::default();
+    let back_zero = plan.back_h2c
+        && plan.back.iter().any(|b| {
+            b.settings.iter().chain(b.changes.iter().flat_map(|c| c.values.iter())).any(|(k, v)| *k == h2::SET_MAX_CONCURRENT_STREAMS && *v == 0)
+        });
+    for (ci, cp) in plan.conns.iter().enumerate() {
+        let o = if cp.front_h1 { run_conn_h1(cp, front_plain, &shared, watchdog) } else { run_conn(cp, front, &shared, plan.back_h2c, watchdog) };
+        rep.obs(if cp.front_h1 { "connections.h1_front" } else { "connections.h2_front" }, 1);
+        let nontrivial = cp.xfers.iter().any(|x| x.up + x.down > 0);
+        rep.case(fingerprint(&plan, cp), nontrivial);
+        merge_stats(&mut front_stats, &o.stats);
+        rep.obs("front.own_window_waits", o.own_window_waits);
+        rep.obs("front.bytes_uploaded_under_sozu_windows", o.uploaded);
+        let base = json!({"case": case, "seed": seed, "generator": force.json(), "conn": ci, "plan": plan_json(&plan)});
+        let with = |extra: Value| -> Value {
+            let mut b = base.clone();
+            if let (Some(m), Some(e)) = (b.as_object_mut(), extra.as_object()) {
+                for (k, v) in e {
+                    m.insert(k.clone(), v.clone());
+                }
+            }
+            b
+        };
+        if let Some(e) = &o.harness_error {
+            rep.inconclusive(&format!("no H2 connection: {}", e.split(':').next().unwrap_or("")));
+            rep.sample(json!({"case": case, "conn": ci, "no_h2_connection": e, "client_io": cp.front.io.describe(), "frame_trace": o.trace_tail}));
+            continue;
+        }
+        for (kind, detail, trace) in &o.violations {
+            rep.violation(
+                &format!("h2limits/{kind}/front"),
+                &format!("towards the H2 client: {detail}"),
+                with(json!({"expected": "every frame within the limits the client advertised", "observed": detail, "frame_trace": trace})),
+            );
+        }
+        for d in &o.other {
+            rep.obs("front.other_ledger_findings", 1);
+            rep.sample(json!({"case": case, "conn": ci, "other_ledger_finding_front": d}));
+        }
+        rep.obs("front.ledger_findings_after_corruption_ignored", o.after_corruption);
+        for d in &o.corrupt {
+            rep.violation(
+                if d.contains("differs") { "h2limits/body_corrupted/front" } else { "h2limits/body_truncated/front" },
+                d,
+                with(json!({"expected": "response body == keystream, END_STREAM after the last octet", "observed": d, "bytes": o.corrupt_hex, "frame_trace": o.trace_tail})),
+            );
+        }
+        let mut completed = 0u64;
+        for x in &o.xfers {
+            if x.done && !x.exempt && x.failed.is_none() {
+                completed += 1;
+                if x.up > 65_535 {
+                    rep.obs("front.uploads_larger_than_sozu_initial_window_completed", 1);
+                }
+            }
+            if x.exempt {
+                rep.obs(&format!("exempt.status_{}", x.status.clone().unwrap_or_default()), 1);
+            }
+        }
+        rep.obs("transfers_completed", completed);
+        for (phase, d) in &o.aborted {
+            if back_zero {
+                rep.obs("exempt.aborted_with_backend_max_concurrent_0", 1);
+                continue;
+            }
+            if !o.corrupt.is_empty() || !shared.corrupt.lock().unwrap().is_empty() {
+                rep.obs("aborted_after_corruption", 1); // consequence of the desynchronised stream
+                continue;
+            }
+            // an abort counts only when it happens again alone (load / close races are not verdicts)
+            stuck_out.push(Stuck {
+                case,
+                class: format!("aborted_{phase}"),
+                detail: d.clone(),
+                witness: with(json!({"expected": "transfer completes", "observed": d, "frame_trace": o.trace_tail,
+                    "backend": format!("{:?}", shared.prog.lock().unwrap())})),
+            });
+        }
+        if let Some((class, detail)) = &o.stuck {
+            let decisive = matches!(class.as_str(), "front" | "back" | "own_window_front" | "own_window_back");
+            let unfinished: Vec<u64> = o.xfers.iter().filter(|x| x.sid != 0 && !x.done).map(|x| x.id).collect();
+            let xfers_txt = format!("{:?}", o.xfers.iter().filter(|x| x.sid != 0 && !x.done).take(8).collect::<Vec<_>>());
+            let back_txt = format!("{:?}", shared.prog.lock().unwrap().iter().filter(|(k, _)| unfinished.contains(k)).take(8).collect::<Vec<_>>());
+            if !o.corrupt.is_empty() || !shared.corrupt.lock().unwrap().is_empty() {
+                // the byte stream was corrupted earlier: the receiver is desynchronised, a stall follows
+                rep.obs("stuck_after_corruption", 1);
+            } else if decisive && !(back_zero && class == "back") {
+                stuck_out.push(Stuck {
+                    case,
+                    class: class.clone(),
+                    detail: detail.clone(),
+                    witness: with(json!({"expected": "transfer completes once credit >= remaining body was granted",
+                        "observed": detail, "frame_trace": o.trace_tail, "client_incomplete_frame": o.pending_header,
+                        "unfinished_transfers": xfers_txt, "backend_view_of_them": back_txt,
+                        "backend_incomplete_frames": format!("{:?}", shared.back_pending_headers.lock().unwrap())})),
+                });
+            } else if back_zero {
+                rep.obs("exempt.stuck_with_backend_max_concurrent_0", 1);
+            } else {
+                rep.inconclusive(&format!("watchdog/{class}"));
+                rep.sample(json!({"case": case, "conn": ci, "watchdog": class, "detail": detail, "frame_trace": o.trace_tail}));
+            }
+            break; // the worker is in an unknown state for the following connections
+        }
+    }
+    // collect the backend side
+    shared.stop.store(true, Ordering::SeqCst);
+    let t0 = Instant::now();
+    while shared.live_conns.load(Ordering::SeqCst) > 0 && t0.elapsed() < Duration::from_secs(3) {
+        std::thread::sleep(Duration::from_millis(5));
+    }
+    let counters = w.probe.counters();
+    let panics = w.stop();
+    backend.stop();
+    for p in panics {
+        if p.in_sozu() {
+            rep.violation(&p.signature(), &format!("sozu panicked: {} at {}", p.message, p.location), json!({"case": case, "seed": seed, "generator": force.json(), "plan": plan_json(&plan)}));
+        } else {
+            rep.broken(&format!("worker thread panicked outside sozu: {} at {}", p.message, p.location));
+        }
+    }
+    for (kind, detail, trace, conn) in shared.back_violations.lock().unwrap().iter() {
+        rep.violation(
+            &format!("h2limits/{kind}/back"),
+            &format!("towards the h2c backend: {detail}"),
+            json!({"case": case, "seed": seed, "generator": force.json(), "backend_conn": conn, "plan": plan_json(&plan),
+                "expected": "every frame within the limits the backend advertised", "observed": detail, "frame_trace": trace}),
+        );
+    }
+    rep.obs("back.ledger_findings_after_corruption_ignored", shared.back_after_corruption.load(Ordering::SeqCst) as u64);
+    for d in shared.back_other.lock().unwrap().iter() {
+        rep.obs("back.other_ledger_findings", 1);
+        rep.sample(json!({"case": case, "other_ledger_finding_back": d}));
+    }
+    for d in shared.corrupt.lock().unwrap().iter() {
+        rep.violation(
+            if d.contains("differs") { "h2limits/body_corrupted/back" } else { "h2limits/body_truncated/back" },
+            d,
+            json!({"case": case, "seed": seed, "generator": force.json(), "plan": plan_json(&plan), "expected": "request body == keystream", "observed": d}),
+        );
+    }
+    front_stats.publish("front", rep);
+    if plan.back_h2c {
+        shared.back_stats.lock().unwrap().publish("back", rep);
+        rep.obs("cells.h2c_backend", 1);
+    } else {
+        rep.obs("cells.h1_backend", 1);
+    }
+    for (k, v) in counters {
+        if k.ends_with(".wouldblock") || k.ends_with(".partial") {
+            rep.obs(&format!("sozu.{k}"), v);
+            if v > 0 {
+                rep.obs(&format!("cells_with.sozu.{k}"), 1);
+            }
+        }
+    }
+    stuck_out
+}
+
+pub fn run(ctx: &Ctx) -> Report {
+    let mut rep = Report::new(
+        "exploration",
+        "cells = live worker + scripted H1 or h2c backend + 2..4 scripted H2/TLS client connections; per connection random peer SETTINGS (initial window, max frame, max concurrent, header table) from the boundary sets, mid-connection SETTINGS changes, a WINDOW_UPDATE schedule (burst, 1-byte drip, chunks, stream-then-connection, connection-then-stream, alternating, exact fit), 1..32 concurrent transfers with boundary-biased up/down sizes; evaluation = one client connection; distinct = distinct (settings, schedule, change count, backend peers, stream-count and size buckets)",
+    );
+    rep.assume("sozu's documented reapers/flood guards are configured out of the way (h2_stream_idle_timeout_seconds=3600, per-window flood thresholds raised, front/back timeouts 600 s)");
+    rep.assume("a limit this peer changed counts from the SETTINGS ACK on (RFC 9113 6.5.3); until then the more permissive of old and new value is accepted");
+    rep.assume("a stalled or aborted transfer is a violation only when it happens again in an isolated re-run of the same cell; at most 3 (thorough: 20) cells are re-run, further first sightings of a class confirmed that way are counted, not judged");
+    rep.assume("transfers answered with a non-200 status, and transfers towards a backend that advertises MAX_CONCURRENT_STREAMS=0, are exempt from the progress oracle");
+    lab::raise_fd_limit();
+    if ctx.opt("selftest").is_some() {
+        match h2::selftest() {
+            Ok(()) => rep.obs("selftest_ok", 1),
+            Err(e) => rep.broken(&format!("h2 selftest: {e}")),
+        }
+        match h2::selftest_sozu() {
+            Ok(s) => {
+                rep.obs("selftest_sozu_ok", 1);
+                rep.sample(json!({"sozu": s}));
+            }
+            Err(e) => rep.broken(&format!("h2 selftest_sozu: {e}")),
+        }
+        rep.case(1, true);
+        rep.case(2, true);
+        return rep;
+    }
+    for k in [
+        "front.window_stalls",
+        "back.window_stalls",
+        "front.shrink_below_inflight",
+        "back.shrink_below_inflight",
+        "front.settings_changes_mid_connection",
+        "back.settings_changes_mid_connection",
+        "front.data_frames_checked",
+        "back.data_frames_checked",
+        "front.connections_with_frames_longer_than_16384",
+        "back.connections_with_frames_longer_than_16384",
+        "front.adv.max_frame.16385",
+        "front.adv.max_frame.16777215",
+        "back.adv.max_frame.16777215",
+        "front.adv.iws.0",
+        "back.adv.iws.0",
+        "front.adv.iws.2147483647",
+        "back.adv.max_concurrent.1",
+        "front.policy.drip1",
+        "back.policy.drip1",
+        "front.policy.exact_fit",
+        "front.uploads_larger_than_sozu_initial_window_completed",
+        "transfers_completed",
+    ] {
+        rep.require(k);
+    }
+    let stuck: Mutex<Vec<Stuck>> = Mutex::new(Vec::new());
+    let force = Force::from_ctx(ctx);
+    if let Some(path) = &ctx.replay {
+        let v: Value = serde_json::from_str(&std::fs::read_to_string(path).unwrap_or_default()).unwrap_or(Value::Null);
+        let mut cases: Vec<(u64, u64, Force)> = v["witnesses"]
+            .as_array()
+            .map(|a| {
+                a.iter()
+                    .filter_map(|w| Some((w["seed"].as_u64().unwrap_or(ctx.seed), w["case"].as_u64()?, Force::from_json(&w["generator"], force))))
+                    .collect()
+            })
+            .unwrap_or_default();
+        cases.dedup_by(|a, b| a.0 == b.0 && a.1 == b.1);
+        rep.required.clear();
+        for (seed, case, f) in cases {
+            let s = run_cell(ctx, f, seed, case, &mut rep, true);
+            stuck.lock().unwrap().extend(s);
+        }
+    } else {
+        let n = ctx.opt_u64("cases", ctx.tier.pick(150, 3_000));
+        // leave room for the isolated re-runs inside the tier's wall-clock budget
+        let soft = ctx.budget.mul_f64(ctx.tier.pick(0.6, 0.85));
+        par_cases(ctx, &mut rep, n, |i, r| {
+            if ctx.started.elapsed() > soft {
+                r.obs("cells_not_started_soft_deadline", 1);
+                return;
+            }
+            let s = run_cell(ctx, force, ctx.seed, i, r, false);
+            stuck.lock().unwrap().extend(s);
+        });
+    }
+    // bounded progress: a stuck transfer counts only when it is stuck again alone
+    let mut candidates = stuck.into_inner().unwrap();
+    candidates.sort_by(|a, b| (a.case, &a.class).cmp(&(b.case, &b.class)));
+    candidates.dedup_by(|a, b| a.case == b.case && a.class == b.class);
+    rep.obs("rerun_candidates", candidates.len() as u64);
+    // re-run order: one case per distinct class first, so every class gets its isolated second look
+    let mut cases: Vec<u64> = Vec::new();
+    let mut seen_class: std::collections::BTreeSet<&str> = std::collections::BTreeSet::new();
+    for c in &candidates {
+        if seen_class.insert(c.class.as_str()) && !cases.contains(&c.case) {
+            cases.push(c.case);
+        }
+    }
+    for c in &candidates {
+        if !cases.contains(&c.case) {
+            cases.push(c.case);
+        }
+    }
+    let max_reruns = ctx.opt_u64("reruns", ctx.tier.pick(3, 20)) as usize;
+    let mut confirmed: std::collections::BTreeSet<String> = std::collections::BTreeSet::new();
+    for (i, case) in cases.iter().enumerate() {
+        let group: Vec<&Stuck> = candidates.iter().filter(|c| c.case == *case).collect();
+        if i >= max_reruns || (ctx.replay.is_some()) {
+            for cand in group {
+                if ctx.replay.is_some() {
+                    // a replay already runs alone: the candidate itself is the second observation
+                    report_confirmed(&mut rep, cand);
+                } else if confirmed.contains(&cand.class) {
+                    // one more sighting of a class that an isolated re-run confirmed in this very run
+                    rep.obs(&format!("further_sightings_not_rerun.{}", cand.class), 1);
+                } else {
+                    rep.inconclusive(&format!("watchdog/{} (not re-run: too many candidates)", cand.class));
+                }
+            }
+            continue;
+        }
+        let seed = group[0].witness["seed"].as_u64().unwrap_or(ctx.seed);
+        let f = Force::from_json(&group[0].witness["generator"], force);
+        let mut scratch = rep.fork();
+        let again = run_cell(ctx, f, seed, *case, &mut scratch, true);
+        for cand in group {
+            match again.iter().find(|a| a.class == cand.class) {
+                Some(a) => {
+                    confirmed.insert(a.class.clone());
+                    report_confirmed(&mut rep, a)
+                }
+                None => {
+                    rep.inconclusive(&format!("watchdog/{} did not reproduce alone", cand.class));
+                    rep.sample(json!({"not_reproduced": cand.witness}));
+                }
+            }
+        }
+    }
     rep
+}
+
+fn ctx_trace_len() -> usize {
+    std::env::var("C14_TRACE").ok().and_then(|v| v.parse().ok()).unwrap_or(40)
+}
+
+fn report_confirmed(rep: &mut Report, a: &Stuck) {
+    if a.class.starts_with("aborted_") {
+        rep.violation(
+            &format!("h2limits/transfer_aborted/{}", a.class.trim_start_matches("aborted_")),
+            &format!("sozu aborted a transfer under a legal WINDOW_UPDATE/SETTINGS schedule (seen twice, the second time alone): {}", a.detail),
+            a.witness.clone(),
+        );
+    } else {
+        rep.violation(
+            &format!("h2limits/stalled_transfer/{}", a.class),
+            &format!("transfer stopped although the peer granted enough credit (seen twice, the second time alone): {}", a.detail),
+            a.witness.clone(),
+        );
+    }
 }
